@@ -45,7 +45,11 @@ ProofsEq(S2, post) ==
      LET p == post.proofs[s] IN
      /\ p.st = ProofSt(S2, s)
      /\ p.st = "pending" => p.by = S2.proof[s].by
-     /\ p.st \in {"pending", "spent"} => p.wit = S2.proof[s].wit
+\* the stored witness of a locked / spent proof is the one it was presented with (C15)
+WitEq(S2, post) ==
+  \A s \in DOMAIN post.proofs :
+     LET p == post.proofs[s] IN
+     (p.st = ProofSt(S2, s) /\ p.st \in {"pending", "spent"}) => p.wit = S2.proof[s].wit
 SigsEq(S2, post) ==
   /\ DOMAIN post.sigs = DOMAIN S2.sig
   /\ \A b \in DOMAIN S2.sig :
@@ -63,10 +67,11 @@ KsEq(S2, post) ==
   /\ \A k \in DOMAIN S2.ks : post.ks[k].active = S2.ks[k].active /\ post.ks[k].fee = S2.ks[k].fee
 
 ProjEq(S2, post) ==
-  ProofsEq(S2, post) /\ SigsEq(S2, post) /\ MqEq(S2, post) /\ LqEq(S2, post) /\ KsEq(S2, post)
+  ProofsEq(S2, post) /\ WitEq(S2, post) /\ SigsEq(S2, post) /\ MqEq(S2, post) /\ LqEq(S2, post) /\ KsEq(S2, post)
 
 Diffs(S2, post) ==
      (IF ProofsEq(S2, post) THEN {} ELSE {"proofs"})
+  \cup (IF WitEq(S2, post) THEN {} ELSE {"witness"})
   \cup (IF SigsEq(S2, post) THEN {} ELSE {"sigs"})
   \cup (IF MqEq(S2, post) THEN {} ELSE {"mq"})
   \cup (IF LqEq(S2, post) THEN {} ELSE {"lq"})
@@ -238,6 +243,7 @@ DiffProp(e, d) ==
   IF ~e.r.ok THEN "C06"
   ELSE CASE d = "proofs" -> IF e.ev \in {"melt", "pollmelt", "checkstate"} THEN "C05" ELSE "C15"
          [] d = "sigs" -> "C15"
+         [] d = "witness" -> "C15"
          [] d = "mq" -> "C03"
          [] d = "lq" -> "C05"
          [] d = "ks" -> "C09"
